@@ -163,6 +163,10 @@ def many_requests_case(args) -> Dict[str, Any]:
         reqs = [(P.MT_SUBSCRIBE, 3000 + i) for i in range(n)]
         reqs += [(P.MT_PAUSE_SUBSCRIPTION, 3000), (P.MT_SUBSCRIBE, 9000), (P.MT_RESUME_SUBSCRIPTION, 3000), (P.MT_SUBSCRIBE, 3001), (P.MT_SUBSCRIBE, 9001),
                  (P.MT_UNSUBSCRIBE, 3002), (P.MT_SUBSCRIBE, 3002), (P.MT_PAUSE_SUBSCRIPTION, 3003), (P.MT_RESUME_SUBSCRIPTION, 3003), (P.MT_RESUME_SUBSCRIPTION, 9500)]
+        # requests that name ids at and beyond the edges of the type table (0 is a real type id): answered like all others
+        for t in (0, 9999, P.MAX_MESSAGE_TYPES, 12345, -1, -5, -2 ** 31, 2 ** 31 - 2):
+            for mt in (P.MT_SUBSCRIBE, P.MT_PAUSE_SUBSCRIPTION, P.MT_RESUME_SUBSCRIPTION, P.MT_UNSUBSCRIBE):
+                reqs.append((mt, t))
         for i, (mt, t) in enumerate(reqs):
             for ev in a.ctl("A", mt, t):
                 env.apply(ev)
